@@ -392,6 +392,15 @@ func monC03(c *child.Ctx, replay json.RawMessage) {
 		}
 	}
 	c.Count("payload_lengths_swept", int64(lens))
+	// junk "of any length": runs around the sizes where buffers are typically capped
+	if c.Batch == 0 || c.Thorough() {
+		for _, jl := range []int{4095, 4096, 4097, 32768, 65535, 65536, 65537, 65539, 70000, 131073, 300000} {
+			f1, f2 := gen.RandFrame(r), gen.RandFrame(r)
+			j := gen.Seg{Kind: "junk", Type: -1, Bytes: gen.NoD3(r.Bytes(jl))}
+			run(gen.Stream{f1, j, f2, gen.Junk(r)}, fmt.Sprintf("junk run of %d bytes", jl))
+			c.Count("long_junk_runs", 1)
+		}
+	}
 	// the last frame truncated at EVERY byte position
 	m := c.Share(c.Pick(160, 3000))
 	for i := 0; i < m; i++ {
@@ -638,6 +647,40 @@ func monC12(c *child.Ctx, replay json.RawMessage) {
 		}
 	}
 	relational = false
+	// periodic messages: the same frame repeated (a base station sends its 1005 again
+	// and again); the victim is a repeat, corrupted in its payload with the CRC bytes intact
+	nRep := c.Share(c.Pick(40, 1200))
+	for i := 0; i < nRep; i++ {
+		var f gen.Seg
+		for {
+			f = gen.RandFrame(r)
+			if len(f.Bytes) <= 40 && len(f.Bytes) >= 9 {
+				break
+			}
+		}
+		other := gen.RandFrame(r)
+		s := gen.Stream{f}
+		if r.Chance(1, 2) {
+			s = append(s, gen.Junk(r))
+		}
+		s = append(s, gen.Seg{Kind: "frame", Type: f.Type, Bytes: append([]byte(nil), f.Bytes...)})
+		if r.Chance(1, 2) {
+			s = append(s, other)
+		}
+		s = append(s, gen.Seg{Kind: "frame", Type: f.Type, Bytes: append([]byte(nil), f.Bytes...)}, gen.RandFrame(r))
+		for v, g := range s {
+			if v == 0 || g.Kind != "frame" || !bytes.Equal(g.Bytes, f.Bytes) {
+				continue
+			}
+			// every single-bit flip of the payload (type bits included), CRC untouched
+			for bit := 24; bit < (len(f.Bytes)-3)*8; bit++ {
+				gg := append([]byte(nil), f.Bytes...)
+				gg[bit/8] ^= 1 << uint(7-bit%8)
+				runFault(s, v, gg, fmt.Sprintf("repeated frame, flip payload bit %d", bit))
+				c.Count("repeated_frame_faults", 1)
+			}
+		}
+	}
 	// larger frames: random faults only
 	nBig := c.Share(c.Pick(2000, 60000))
 	for i := 0; i < nBig; i++ {
@@ -811,6 +854,11 @@ func monC02(c *child.Ctx, replay json.RawMessage) {
 		addInput([]byte{0xD3}, true)
 		addInput([]byte{0xD3, 0xD3, 0xD3, 0xD3}, true)
 		addInput([]byte("junk ending in a preamble\xd3"), true)
+		// long 0xD3-free runs around typical buffer caps, followed by a frame
+		for _, jl := range []int{4096, 65535, 65536, 65537, 70000} {
+			b := append(gen.NoD3(r.Bytes(jl)), gen.RandFrame(r).Bytes...)
+			addInput(b, true)
+		}
 		f := gen.RandFrame(r)
 		for len(f.Bytes) > 40 || !gen.SafeMSMPayload(f.Type, len(f.Bytes)-6) {
 			f = gen.RandFrame(r)
